@@ -27,10 +27,25 @@
     * C12_Beap_fix_F13_witness — with the proposed one-line fix (`Env.fixEmptied = true`:
       `return len(bank[cost_index]) == 0, bank[cost_index]`) the same history yields `m(b,b)` and stops.
   Every theorem of the three part files holds for both values of `Env.fixEmptied`.
-  The filter half (every program all of whose sub-programs are accepted is yielded; no duplicates) is
-  compared on every generated case (exact correspondence + independent oracle), not proved.
+  THE FILTER HALF (round 2, positive rule costs, histories without merge_program):
+    * C12_Beap_filter_complete        — when the generator has stopped, every program of the start symbol all of
+                                        whose sub-programs are accepted has been yielded;
+    * C12_Beap_filter_prefix_complete — on every prefix: when a program of cost y has been yielded, every such
+                                        program of strictly smaller cost has been yielded (recursive grammars too);
+    * C12_Beap_filter_terminates_partial — |language| + 1 calls of `next` reach the end whenever the run returns;
+    * no duplicates with a filter: C02_Beap_nodup (C02 part file).
+  THE MERGE HALF ON THE REPAIRED CODE (fix C12-F13, `Env.fixEmptied = true`; PS/Proofs/Enum/BeapM0..M7.lean):
+    * C12_Beap_merge_complete_partial — for every history of `next` / `merge_program` calls (merges after the first
+      `next`), when the generator has stopped every program all of whose sub-programs are accepted and were not merged
+      has been yielded (nothing that does not contain a merged program is lost);
+    * C12_Beap_merge_prefix_complete_partial — the same on every prefix;
+    * C12_Beap_merge_step — `merge_program` keeps the completeness invariants for the effective filter "accepted and
+      not merged".
+    The converse ("only those") is false: finding C12-F12 (open).
+  Not proved: termination of one `next` call (existence of a sufficient fuel).
 -/
 import PS.Proofs.Enum.BeapFilter
+import PS.Proofs.Enum.BeapM7
 import PS.Props.C02_Beap
 namespace PS.C12Beap
 open PS PS.G PS.Beap PS.C02Beap
@@ -140,5 +155,186 @@ example : (take (mE 2 fun _ => true) 100 10 (Gen.new mG) []).map (fun r => (r.2.
 example : (take (mE 2 fun p => decide (p ≠ pa)) 100 10 (Gen.new mG) []).map (fun r => (r.2.1, r.2.2))
     = some ([pm pb pb], true) := by
   decide +kernel
+
+/-! ### the filter half: liveness (round 2) -/
+section
+variable {S : Type} [DecidableEq S]
+
+/-- **FILTER LIVENESS at the end (positive rule costs, any filter)**: when the generator has stopped, every
+    program of the start symbol ALL OF WHOSE SUB-PROGRAMS ARE ACCEPTED by the filter (`clean`) has been yielded
+    (no merge_program call in the history) -/
+theorem C12_Beap_filter_complete (E : Env S) (hnd : RowsNodup E.G) (hst : StableAfter E) (hprod : Productive E)
+    (hpos : PosW E) (fuel k : Nat) (g : Gen S) (ys : List Prog)
+    (h : take E fuel k (Gen.new E.G) [] = some (g, ys, true))
+    (q : Prog) (x : Rat) (hcl : clean E.filter q = true) (hx : costOf E q E.G.start = some x) : q ∈ ys :=
+  C02_Beap_complete E hnd hst hprod hpos fuel k g ys h q x hcl hx
+
+/-- **FILTER LIVENESS on every prefix** (finite and recursive grammars): when a program of cost `y` has been yielded,
+    every program of strictly smaller cost all of whose sub-programs are accepted has been yielded -/
+theorem C12_Beap_filter_prefix_complete (E : Env S) (hnd : RowsNodup E.G) (hst : StableAfter E) (hprod : Productive E)
+    (hpos : PosW E) (fuel k : Nat) (g : Gen S) (ys : List Prog) (fin : Bool)
+    (h : take E fuel k (Gen.new E.G) [] = some (g, ys, fin))
+    (p q : Prog) (x y : Rat) (hp : p ∈ ys) (hy : costOf E p E.G.start = some y) (hcl : clean E.filter q = true)
+    (hx : costOf E q E.G.start = some x) (hlt : x < y) : q ∈ ys :=
+  prefix_complete E hnd hst hprod hpos fuel k (g, ys, fin) h p q x y hp hy hcl hx hlt
+
+/-- **TERMINATION with a (rejecting) filter, partial form**: as C02_Beap_terminates_partial — the filter only removes
+    programs from the output, so `|lang| + 1` calls of `next` reach the end whenever the run returns (explicit,
+    decidable hypothesis: `take … = some …`) -/
+theorem C12_Beap_filter_terminates_partial (E : Env S) (hnd : RowsNodup E.G) (hst : StableAfter E)
+    (hprod : Productive E) (hpos : PosW E) (lang : List Prog)
+    (hmem : ∀ q x, costOf E q E.G.start = some x → q ∈ lang)
+    (fuel : Nat) (g : Gen S) (ys : List Prog) (fin : Bool)
+    (h : take E fuel (lang.length + 1) (Gen.new E.G) [] = some (g, ys, fin)) : fin = true :=
+  C02_Beap_terminates_partial E hnd hst hprod hpos lang hmem fuel g ys fin h
+end
+
+/-! non-vacuity with the rejecting filter "is not the leaf `a`" on `X -> a | m(Y,Y)`, `Y -> a | b` -/
+def notA : Prog → Bool := fun p => decide (p ≠ pa)
+def mRank (nt : NT Nat Unit) : Nat := if nt = nX then 1 else 0
+
+theorem m_rowsNodup : RowsNodup mG := by
+  intro nt rs h
+  simp only [mG, AList.lookup] at h
+  repeat (first | (split at h; (cases h; decide)) | (simp at h))
+
+theorem m_ranked (f : Prog → Bool) : Ranked (mE 2 f) mRank := by
+  intro nt P rl hr a ha
+  unfold TT.rule? at hr
+  split at hr
+  · cases hr
+  · next rs hrs =>
+    have h1 := AList.lookup_some_mem hrs
+    have h2 := AList.lookup_some_mem hr
+    have h : mG.rules.all (fun r => r.2.all (fun rule => rule.2.1.all (fun a => decide (mRank (ntOf a) < mRank r.1)))) = true := by
+      decide
+    rw [List.all_eq_true] at h
+    have h3 := h _ h1
+    rw [List.all_eq_true] at h3
+    have h4 := h3 _ h2
+    rw [List.all_eq_true] at h4
+    simpa using h4 a ha
+
+theorem m_productive : Productive (mE 2 notA) := by
+  intro nt h
+  by_cases h1 : nt = nX
+  · subst h1; exact ⟨pa, 1, by decide +kernel⟩
+  · by_cases h2 : nt = nY
+    · subst h2; exact ⟨pa, 1, by decide +kernel⟩
+    · simp [mE, mG, AList.lookup, Ne.symm h1, Ne.symm h2] at h
+
+theorem m_posW : PosW (mE 2 notA) := posW_of_check (mE 2 notA) (by decide +kernel)
+theorem m_stable : StableAfter (mE 2 notA) := stableAfter_of_ranked mRank (mE 2 notA) m_rowsNodup (m_ranked notA)
+
+/-- non-vacuity of C12_Beap_filter_complete: the hypotheses hold for the rejecting filter, the generator stops (see
+    the run above: output `[m(b,b)]`), and `m(b,b)` is clean and priced -/
+example : ∃ g ys, take (mE 2 notA) 100 10 (Gen.new mG) [] = some (g, ys, true) ∧ pm pb pb ∈ ys := by
+  have hrun : (take (mE 2 notA) 100 10 (Gen.new mG) []).map (fun r => r.2.2) = some true := by decide +kernel
+  cases hp : take (mE 2 notA) 100 10 (Gen.new mG) [] with
+  | none => simp [hp] at hrun
+  | some r =>
+    obtain ⟨g, ys, fin⟩ := r
+    simp only [hp, Option.map_some, Option.some.injEq] at hrun
+    subst hrun
+    exact ⟨g, ys, rfl, C12_Beap_filter_complete (mE 2 notA) m_rowsNodup m_stable m_productive m_posW 100 10 g ys hp
+      (pm pb pb) 5 (by decide +kernel) (by decide +kernel)⟩
+
+/-- the other clean-looking candidates are not clean: `m(a,b)` contains the rejected `a` -/
+example : clean notA (pm pa pb) = false ∧ clean notA (pm pb pb) = true := by decide +kernel
+
+/-- C12_Beap_filter_prefix_complete / C12_Beap_filter_terminates_partial instantiated with the rejecting filter -/
+example (fuel k : Nat) (g : Gen Nat) (ys : List Prog) (fin : Bool) (h : take (mE 2 notA) fuel k (Gen.new mG) [] = some (g, ys, fin))
+    (p q : Prog) (x y : Rat) (hp : p ∈ ys) (hy : costOf (mE 2 notA) p nX = some y) (hcl : clean notA q = true)
+    (hx : costOf (mE 2 notA) q nX = some x) (hlt : x < y) : q ∈ ys :=
+  C12_Beap_filter_prefix_complete (mE 2 notA) m_rowsNodup m_stable m_productive m_posW fuel k g ys fin h p q x y hp hy hcl hx hlt
+
+example (lang : List Prog) (hmem : ∀ q x, costOf (mE 2 notA) q nX = some x → q ∈ lang) (fuel : Nat) (g : Gen Nat) (ys : List Prog)
+    (fin : Bool) (h : take (mE 2 notA) fuel (lang.length + 1) (Gen.new mG) [] = some (g, ys, fin)) : fin = true :=
+  C12_Beap_filter_terminates_partial (mE 2 notA) m_rowsNodup m_stable m_productive m_posW lang hmem fuel g ys fin h
+
+/-! ### the merge half with the repaired `_query_list_` (fix C12-F13, `Env.fixEmptied = true`) -/
+section
+variable {S : Type} [DecidableEq S]
+
+/-- **LIVENESS OF THE MERGE HALF, partial**.  Explicit hypotheses: `E.fixEmptied = true` (the repaired `_query_list_` of
+    fix C12-F13: an existing but empty bank entry is an allowed-empty cost index) and every `merge_program` call comes
+    after the first `next` (constructor `Hist.merge`).  Then for EVERY history of `next` / `merge_program` calls from
+    the fresh generator (`Beap.Hist`: `ys` the programs yielded so far, `ms` the programs merged so far): when the
+    generator has stopped, every program of the start symbol all of whose sub-programs (itself included) are accepted
+    by the filter and were not merged (`clean (effFilter E ms)`) HAS BEEN YIELDED — nothing that does not contain a
+    merged program is lost (what finding C12-F13 broke).  The other half of "exactly" is false (finding C12-F12: a
+    program that contains `other` can still be yielded after the merge); what holds there is
+    C12_Beap_merged_never_yielded (`other` itself is never yielded again). -/
+theorem C12_Beap_merge_complete_partial (E : Env S) (hfix : E.fixEmptied = true) (hnd : RowsNodup E.G) (hst : StableAfter E)
+    (hprod : Productive E) (hpos : PosW E) (fuel : Nat) (g : Gen S) (ys ms : List Prog) (hh : Hist E fuel g ys ms)
+    (hfin : g.finished = true) (q : Prog) (x : Rat) (hcl : clean (effFilter E ms) q = true)
+    (hx : costOf E q E.G.start = some x) : q ∈ ys :=
+  merge_complete E hfix hnd hst hprod hpos fuel g ys ms hh hfin q x hcl hx
+
+/-- the same on every prefix of every history (finite and recursive grammars): when a program of cost `y` has been
+    yielded, every program of strictly smaller cost that is clean for the effective filter has been yielded -/
+theorem C12_Beap_merge_prefix_complete_partial (E : Env S) (hfix : E.fixEmptied = true) (hnd : RowsNodup E.G) (hst : StableAfter E)
+    (hprod : Productive E) (hpos : PosW E) (fuel : Nat) (g : Gen S) (ys ms : List Prog) (hh : Hist E fuel g ys ms)
+    (p q : Prog) (x y : Rat) (hp : p ∈ ys) (hy : costOf E p E.G.start = some y) (hcl : clean (effFilter E ms) q = true)
+    (hx : costOf E q E.G.start = some x) (hlt : x < y) : q ∈ ys :=
+  merge_prefix_complete E hfix hnd hst hprod hpos fuel g ys ms hh p q x y hp hy hcl hx hlt
+
+/-- `merge_program` keeps the completeness invariants for the effective filter that also rejects `other` (the step
+    lemma behind the two theorems above) -/
+theorem C12_Beap_merge_step (E : Env S) (F F' : Prog → Bool) (g : Gen S) (other : Prog) (ok : NT S Unit → Bool) (ys : List Prog)
+    (hF' : ∀ p, F' p = true → F p = true ∧ p ≠ other) (hg : GKm E F g ys) : GKm E F' (Beap.merge g other ok) ys :=
+  merge_km E F F' g other ok ys hF' hg
+end
+
+/-! non-vacuity: the history of finding C12-F13 on the repaired code: `a`, `m(a,a)`, `merge_program(_, a)`, then the rest -/
+def fixE : Env Nat := mE 2 (fun _ => true) true
+
+theorem fix_ranked : Ranked fixE mRank := by
+  intro nt P rl hr a ha
+  exact m_ranked (fun _ => true) nt P rl hr a ha
+theorem fix_productive : Productive fixE := by
+  intro nt h
+  by_cases h1 : nt = nX
+  · subst h1; exact ⟨pa, 1, by decide +kernel⟩
+  · by_cases h2 : nt = nY
+    · subst h2; exact ⟨pa, 1, by decide +kernel⟩
+    · simp [fixE, mE, mG, AList.lookup, Ne.symm h1, Ne.symm h2] at h
+theorem fix_posW : PosW fixE := posW_of_check fixE (by decide +kernel)
+theorem fix_stable : StableAfter fixE := stableAfter_of_ranked mRank fixE m_rowsNodup fix_ranked
+
+/-- the hypotheses of C12_Beap_merge_complete_partial hold for the history "2 × next, merge_program(_, a), next until the
+    end" on the repaired code, the generator stops, and `m(b,b)` — clean for the effective filter "not `a`" — is in the
+    output (cf. the kernel-evaluated run C12_Beap_fix_F13_witness) -/
+example : ∃ g ys, Hist fixE 100 g ys [pa] ∧ g.finished = true ∧ pm pb pb ∈ ys := by
+  have hrun : (match take fixE 100 2 (Gen.new mG) [] with
+     | some (g, ys, _) => (take fixE 100 10 (Beap.merge g pa fun _ => true) ys).map (fun r => (decide (ys ≠ []), r.2.2))
+     | none => none) = some (true, true) := by decide +kernel
+  cases h1 : take fixE 100 2 (Gen.new mG) [] with
+  | none => simp [h1] at hrun
+  | some r1 =>
+    obtain ⟨g1, ys1, f1⟩ := r1
+    simp only [h1] at hrun
+    cases h2 : take fixE 100 10 (Beap.merge g1 pa fun _ => true) ys1 with
+    | none => simp [h2] at hrun
+    | some r2 =>
+      obtain ⟨g2, ys2, f2⟩ := r2
+      simp only [h2, Option.map_some, Option.some.injEq, Prod.mk.injEq, decide_eq_true_eq] at hrun
+      obtain ⟨hne, hf2⟩ := hrun
+      subst hf2
+      have a1 := (hist_take fixE rfl m_rowsNodup fix_stable fix_productive fix_posW 100 [] 2 _ [] _ Hist.new h1).1
+      have a2 : Hist fixE 100 (Beap.merge g1 pa fun _ => true) ys1 [pa] :=
+        Hist.merge g1 ys1 [] pa _ a1 (hist_started fixE rfl m_rowsNodup fix_stable fix_productive fix_posW 100 g1 ys1 [] a1 hne)
+      obtain ⟨a3, a4⟩ := hist_take fixE rfl m_rowsNodup fix_stable fix_productive fix_posW 100 [pa] 10 _ ys1 _ a2 h2
+      exact ⟨g2, ys2, a3, a4 rfl, C12_Beap_merge_complete_partial fixE rfl m_rowsNodup fix_stable fix_productive fix_posW 100 g2 ys2 [pa]
+        a3 (a4 rfl) (pm pb pb) 5 (by decide +kernel) (by decide +kernel)⟩
+
+/-- non-vacuity of C12_Beap_merge_step: the side condition on the two effective filters holds for `effFilter` -/
+example (g : Gen Nat) (ys : List Prog) (ok : NT Nat Unit → Bool) (hg : GKm fixE (effFilter fixE []) g ys) :
+    GKm fixE (effFilter fixE [pa]) (Beap.merge g pa ok) ys :=
+  C12_Beap_merge_step fixE _ _ g pa ok ys (effFilter_cons fixE [] pa) hg
+
+/-- what the effective filter excludes: `m(a,b)` contains the merged `a` (that it can still be yielded is finding
+    C12-F12), `m(b,b)` does not -/
+example : clean (effFilter fixE [pa]) (pm pa pb) = false ∧ clean (effFilter fixE [pa]) (pm pb pb) = true := by decide +kernel
 
 end PS.C12Beap
